@@ -10,37 +10,43 @@
 (***************************************************************************)
 EXTENDS SymbolTrie, Json, TLC, Held
 
-VARIABLES l, input, k
+VARIABLES l, input, k, alts    \* alts: symbol -> the types it was registered with BEFORE its latest registration
 Trace == ndJsonDeserialize("trace.ndjson")
 F(ok, name) == IF ok THEN "" ELSE name \o "; "
 
 \* the symbols an instance has from its construction (none for the generic state): list of <<symbol, type>>
 Preset(ps) == [s \in {ps[i][1] : i \in 1 .. Len(ps)} |-> ps[CHOOSE i \in 1 .. Len(ps) : ps[i][1] = s][2]]
+\* The same symbol registered AGAIN with another type: "registering further symbols never alters the text or type reported for
+\* existing ones" speaks of other symbols; whether the repeated registration replaces the type or leaves the first one is not
+\* stated - every type the symbol was registered with is accepted from then on.
 Apply(e) ==
-  CASE e.op = "new"  -> syms' = (IF "preset" \in DOMAIN e THEN Preset(e.preset) ELSE <<>>) /\ input' = <<>> /\ k' = 0
-    [] e.op = "add"  -> Add(e.sym, e.type) /\ UNCHANGED <<input, k>>
-    [] e.op = "scan" -> input' = e.input /\ k' = 0 /\ UNCHANGED syms
+  CASE e.op = "new"  -> syms' = (IF "preset" \in DOMAIN e THEN Preset(e.preset) ELSE <<>>) /\ input' = <<>> /\ k' = 0 /\ alts' = <<>>
+    [] e.op = "add"  -> /\ Add(e.sym, e.type) /\ UNCHANGED <<input, k>>
+                        /\ alts' = IF e.sym \in DOMAIN syms /\ syms[e.sym] # e.type
+                                   THEN [x \in DOMAIN alts \cup {e.sym} |-> IF x = e.sym THEN (IF x \in DOMAIN alts THEN alts[x] ELSE {}) \cup {syms[e.sym]} ELSE alts[x]]
+                                   ELSE alts
+    [] e.op = "scan" -> input' = e.input /\ k' = 0 /\ UNCHANGED <<syms, alts>>
     [] e.op = "next" -> \* continue from the OBSERVED cursor, so that one bad token does not
                         \* put the rest of the segment out of step (each event is judged on its own)
                         /\ k' = IF e.obs.k \in 0 .. Len(input) THEN e.obs.k
                                 ELSE IF k < Len(input) THEN Next(input, k)[3] ELSE k
-                        /\ UNCHANGED <<syms, input>>
+                        /\ UNCHANGED <<syms, input, alts>>
 
 Fails(e) ==
   IF e.op # "next" THEN ""
   ELSE IF k >= Len(input) THEN ""      \* driven only while characters remain; nothing to judge at the end
   ELSE LET r == Next(input, k) IN
           F(e.obs.text = r[2], "text is not the longest registered symbol (or the single next character)")
-       \o F(e.obs.type = r[1], "type is not the type registered for that symbol")
+       \o F(e.obs.type = r[1] \/ (r[2] \in DOMAIN alts /\ e.obs.type \in alts[r[2]]), "type is not the type registered for that symbol")
        \o F(e.obs.k = r[3], "did not consume exactly the symbol")
 
-Init == l = 1 /\ syms = <<>> /\ input = <<>> /\ k = 0
+Init == l = 1 /\ syms = <<>> /\ input = <<>> /\ k = 0 /\ alts = <<>>
 Next_ ==
   /\ l <= Len(Trace)
   /\ l' = l + 1
   /\ LET e == Trace[l] IN
      /\ Apply(e)
      /\ LET f == Fails(e) IN Report(l, f, Trace[l])
-Spec == Init /\ [][Next_]_<<l, syms, input, k>>
+Spec == Init /\ [][Next_]_<<l, syms, input, k, alts>>
 Accepted == TLCGet("stats").diameter - 1 = Len(Trace)
 =============================================================================
